@@ -47,25 +47,28 @@ def nameOfBytes (r g b : Nat) : Option (List Char) := Generated.v2n.lookup (r * 
 /-- rgba.rs `Rgba::all_zero` -/
 def Rgba.allZero (c : Rgba α) : Bool := c.a == 0 && c.r == 0 && c.g == 0 && c.b == 0
 
+/-- rgba.rs `impl Display for Formatted<Rgba>`, the branch for byte colours (`try_bytes` succeeded) -/
+def bytesTok (compressed : Bool) (src : RgbFormat) (r g b : Nat) : Tok α :=
+  let short := r % 17 == 0 && g % 17 == 0 && b % 17 == 0
+  let hexLen := if short then 4 else 7
+  if compressed then
+    match nameOfBytes r g b with
+    | some n => if n.length ≤ hexLen then .name n
+                else if short then .hex3 (r / 17) (g / 17) (b / 17) else .hex6 r g b
+    | none => if short then .hex3 (r / 17) (g / 17) (b / 17) else .hex6 r g b
+  else
+    match src with
+    | .longHex => .hex6 r g b
+    | .shortHex => .hex3 (r / 17) (g / 17) (b / 17)
+    | .name => match nameOfBytes r g b with
+               | some n => .name n
+               | none => .hex6 r g b
+    | .rgb => .rgbBytes r g b
+
 /-- rgba.rs `impl Display for Formatted<Rgba>` -/
 def Rgba.tok (compressed : Bool) (c : Rgba α) : Tok α :=
   match c.tryBytes with
-  | some (r, g, b) =>
-    let short := r % 17 == 0 && g % 17 == 0 && b % 17 == 0
-    let hexLen := if short then 4 else 7
-    if compressed then
-      match nameOfBytes r g b with
-      | some n => if n.length ≤ hexLen then .name n
-                  else if short then .hex3 (r / 17) (g / 17) (b / 17) else .hex6 r g b
-      | none => if short then .hex3 (r / 17) (g / 17) (b / 17) else .hex6 r g b
-    else
-      match c.src with
-      | .longHex => .hex6 r g b
-      | .shortHex => .hex3 (r / 17) (g / 17) (b / 17)
-      | .name => match nameOfBytes r g b with
-                 | some n => .name n
-                 | none => .hex6 r g b
-      | .rgb => .rgbBytes r g b
+  | some (r, g, b) => bytesTok compressed c.src r g b
   | none =>
     if compressed && c.allZero then .transparent
     else .rgbFn c.r c.g c.b (if 1 ≤ c.a then none else some c.a)
